@@ -652,6 +652,7 @@ func rulePHASE(c *Ctx) []Obligation {
 	// steps: top-level calls of translate, in order
 	type step struct {
 		name         string
+		fn           *types.Func
 		pos          token.Pos
 		fills, looks map[string]bool
 	}
@@ -665,7 +666,7 @@ func rulePHASE(c *Ctx) []Obligation {
 		if sf == nil {
 			continue
 		}
-		s := &step{name: f.Name(), pos: ref.pos, fills: map[string]bool{}, looks: map[string]bool{}}
+		s := &step{name: f.Name(), fn: f, pos: ref.pos, fills: map[string]bool{}, looks: map[string]bool{}}
 		order, _ := e.reach([]*ssa.Function{sf})
 		for _, g := range order {
 			for m := range lookups[g] {
@@ -743,9 +744,17 @@ func rulePHASE(c *Ctx) []Obligation {
 			o.Verdict, o.Pos = VIOL, c.pos(firstLook.pos)
 			o.Detail = fmt.Sprintf("%s resolves uses in %s before %s has created all scaffolds: forward references fail or bind to nothing", firstLook.name, m, lastFill.name)
 		case firstLook == lastFill:
-			// the same step both fills and consults: allowed only when the fill loop precedes the lookups inside it (type resolution)
-			o.Detail = fmt.Sprintf("filled and consulted within %s (two sub-steps; checked by LK-1 phase-order obligation)", lastFill.name)
+			// the same step both fills and consults: its own sub-steps are ordered the same way —
+			// inside it (recursively) every fill loop over all definitions ends before the first lookup
 			o.Pos = c.pos(lastFill.pos)
+			if ok, why, pos := c.subStepsOrdered(lastFill.fn, m, lookups, 0); ok {
+				o.Detail = fmt.Sprintf("filled and consulted within %s, whose sub-steps fill before they consult (%s)", lastFill.name, why)
+			} else {
+				o.Verdict, o.Detail = VIOL, fmt.Sprintf("within %s, %s: forward references fail or bind to a substitute that is not the definition", lastFill.name, why)
+				if pos.IsValid() {
+					o.Pos = c.pos(pos)
+				}
+			}
 		default:
 			o.Pos = c.pos(lastFill.pos)
 			o.Detail = fmt.Sprintf("filled by %s, first consulted by %s", lastFill.name, firstLook.name)
@@ -753,6 +762,112 @@ func rulePHASE(c *Ctx) []Obligation {
 		obs = append(obs, o)
 	}
 	return obs
+}
+
+// subStepsOrdered: inside fn, every event that fills index m for all definitions (a range over
+// the matching old index that stores into m, directly or in a callee) ends before the first
+// event that looks m up with a decoded identifier (directly or in a callee); a callee that does
+// both is examined the same way.
+func (c *Ctx) subStepsOrdered(fn *types.Func, m string, lookups map[*ssa.Function]map[string]bool, depth int) (bool, string, token.Pos) {
+	fd := c.funcDecl(fn)
+	if fd == nil || fd.Body == nil || depth > 3 {
+		return false, "sub-steps of " + fn.Name() + " not available", token.NoPos
+	}
+	info := c.declPkg[fd].TypesInfo
+	e := c.effects()
+	closureOf := func(g *types.Func) (fills, looks bool) {
+		sf := c.ssaFunc(g)
+		if sf == nil {
+			return
+		}
+		order, _ := e.reach([]*ssa.Function{sf})
+		for _, h := range order {
+			if lookups[h][m] {
+				looks = true
+			}
+			for _, ef := range e.of(h) {
+				if ef.Kind == "map" && ef.Target == m && c.insideRangeOverIndex(h, ef) {
+					fills = true
+				}
+			}
+		}
+		return
+	}
+	type event struct {
+		pos, end     token.Pos
+		fills, looks bool
+		what         string
+		callee       *types.Func
+	}
+	var evs []event
+	short := strings.TrimPrefix(m, "asm.")
+	defs := collectDefs(info, fd.Body)
+	ast.Inspect(fd.Body, func(n ast.Node) bool {
+		switch n := n.(type) {
+		case *ast.FuncLit:
+			return false
+		case *ast.RangeStmt:
+			if strings.HasPrefix(mapFieldName(info, n.X), "oldIndex.") {
+				stores := false
+				ast.Inspect(n.Body, func(q ast.Node) bool {
+					if as, ok := q.(*ast.AssignStmt); ok {
+						for _, l := range as.Lhs {
+							if ix, ok := unparen(l).(*ast.IndexExpr); ok && mapFieldName(info, ix.X) == short {
+								stores = true
+							}
+						}
+					}
+					return true
+				})
+				if stores {
+					evs = append(evs, event{pos: n.Pos(), end: n.End(), fills: true, what: "the loop that fills " + short})
+				}
+			}
+		case *ast.AssignStmt:
+			if len(n.Lhs) == 2 && len(n.Rhs) == 1 {
+				if ix, ok := unparen(n.Rhs[0]).(*ast.IndexExpr); ok && mapFieldName(info, ix.X) == short && c.keyIsDecoded(info, defs, ix.Index) {
+					evs = append(evs, event{pos: n.Pos(), end: n.End(), looks: true, what: "a lookup of " + short})
+				}
+			}
+		case *ast.CallExpr:
+			if g := calleeOf(info, n); g != nil && g != fn && g.Pkg() != nil && g.Pkg().Path() == pkgASM {
+				if f, l := closureOf(g); f || l {
+					evs = append(evs, event{pos: n.Pos(), end: n.End(), fills: f, looks: l, what: g.Name(), callee: g})
+				}
+			}
+		}
+		return true
+	})
+	var firstLook *event
+	for i := range evs {
+		if evs[i].looks && (firstLook == nil || evs[i].pos < firstLook.pos) {
+			firstLook = &evs[i]
+		}
+	}
+	if firstLook == nil {
+		return true, "no lookup", token.NoPos
+	}
+	for i := range evs {
+		ev := &evs[i]
+		if !ev.fills {
+			continue
+		}
+		if ev == firstLook {
+			continue
+		}
+		if ev.end > firstLook.pos {
+			return false, fmt.Sprintf("%s (at %s) consults %s before %s (at %s) has created all definitions", firstLook.what, c.pos(firstLook.pos), short, ev.what, c.pos(ev.pos)), firstLook.pos
+		}
+	}
+	// events that both fill and consult are examined inside
+	for i := range evs {
+		if evs[i].fills && evs[i].looks && evs[i].callee != nil {
+			if ok, why, pos := c.subStepsOrdered(evs[i].callee, m, lookups, depth+1); !ok {
+				return false, why, pos
+			}
+		}
+	}
+	return true, fmt.Sprintf("%d ordered event(s) in %s", len(evs), fn.Name()), token.NoPos
 }
 
 // insideRangeOverIndex: the map update happens inside a range over a map field of oldIndex.
